@@ -235,7 +235,11 @@ def run_backtest(c: C.RunCtx, spec, full_candles, label='s'):
         out['exc_type'] = name
         out['where'] = top_jesse_frame(e.__traceback__)
         out['tb'] = traceback.format_exc()[-3000:]
-        if name in LEGAL_REJECTIONS:
+        frames = traceback.extract_tb(e.__traceback__)
+        if frames and '/simlab/' in frames[-1].filename:
+            # raised by harness code (strategy program / monitor), not by jesse
+            out['status'] = 'harness-exception'
+        elif name in LEGAL_REJECTIONS:
             out['status'] = 'legal-rejection'
         else:
             out['status'] = 'exception'
